@@ -99,6 +99,14 @@ func (p *Proxy) ServeHTTP(w http.ResponseWriter, proxyReq *http.Request) {
 }
 
 func finalizeAndRespond(r responder.Responder, resp io.Reader, status int, req *http.Request) error {
+	if status < 100 || status > 999 {
+		// net/http accepts any three-digit status from the origin (e.g. "099"),
+		// but http.ResponseWriter.WriteHeader panics on codes outside 100-999.
+		slog.Error("Upstream sent an invalid status code", "url", req.URL, "status", status)
+		r.WriteError("invalid status code from upstream", http.StatusBadGateway)
+		return fmt.Errorf("%w: invalid status code %d", ErrBadGateway, status)
+	}
+
 	body := resp
 	if req.Method == http.MethodHead {
 		body = http.NoBody
